@@ -469,6 +469,21 @@ func c17FailClosed(c *Ctx, reg *guardedGlobal) {
 		}
 		r.Check("R17.4", FuncName(named), fmt.Sprintf("return #%d is the lookup result or EmptyDecoration", i+1), ret.Pos(), ok, why)
 	}
+	// the name is looked up / stored exactly as given
+	eachInstr(named, func(in ssa.Instruction) {
+		if lk, ok := in.(*ssa.Lookup); ok {
+			if f, base := loadedField(lk.X); f != nil && base == ssa.Value(reg.G) {
+				r.Check("R17.4", FuncName(named), "the registry is consulted with the name exactly as given", in.Pos(), lk.Index == ssa.Value(named.Params[0]), "the key is transformed before the lookup: a name can be registered and listed yet never found, or an unregistered spelling can resolve")
+			}
+		}
+	})
+	if regFn := c.Func("texttable/decoration", "RegisterDecorationName"); regFn != nil {
+		eachInstr(regFn, func(in ssa.Instruction) {
+			if mu, ok := in.(*ssa.MapUpdate); ok {
+				r.Check("R17.4", FuncName(regFn), "a decoration is stored under the name exactly as given", in.Pos(), mu.Key == ssa.Value(regFn.Params[0]) && mu.Value == ssa.Value(regFn.Params[1]), "")
+			}
+		})
+	}
 	// (b) EmptyDecoration is never stored to (not even at init: it is the zero value)
 	nst := 0
 	for _, fn := range c.LibFuncs() {
